@@ -3,23 +3,27 @@ C19 — compaction and cloning preserve everything reachable (BasicGarnishData `
 
 Theorems about the model of Store/BasicOptimize.lean (tied cell by cell to the Rust by the OPT / CLONE suites):
 
-* `C19_optimize_preserves` — universal: for every well-formed store (`WF`, a decidable invariant) and every list of
-  readable roots, a successful `optimize` reports every register, input value and frame (as whole chains), every
-  extra root (positionally), and every symbol name at an address that unfolds to the same tree; the retained prefix
-  is unchanged cell for cell; the retention count is unchanged.  `C19_optimize_preserves_no_retention` is the
-  special case.  Not covered: stores in which a retained input-value cell was updated in place
-  (`C19_optimize_preserves_inplace_statement`, kept as a statement with what is missing).
-* `clone_preserves` — universal: `clone_data` returns an address that unfolds to the same tree as its argument;
-  `clone_original_untouched`, `clone_keeps_every_value`: the original is intact.
-* `WF_init`, `WF_add_solo`, `WF_add_text`, `WF_push_register`, `WF_push_value`, `WF_push_frame`,
-  `WF_pop_register`, `WF_pop_value`, `WF_retain_all`: `WF` holds initially and is kept by these operations.
-* `graphIso_sound`, `C19_certified`: the verified checker the driver runs on every generated case (also on the
-  states the universal theorems do not cover).
-* `optimize_retained_prefix_unchanged`, `optimize_retention_beyond`, `C19_optimize_preserves_partial`.
-* `stale_map_script_preserved`, `in_place_script_preserved`: the two scripts that broke the code before the fixes.
-* `example`s at the end: a concrete 19-cell store satisfying the hypotheses of every theorem (non-vacuity).
+* `C19_optimize_preserves` — for every well-formed store (`WF`, decidable) and readable roots, a successful `optimize`
+  reports every register, input value, frame (whole chains), extra root (positionally) and symbol name at an address
+  that unfolds to the same tree; the retained prefix is unchanged cell for cell.
+* `C19_optimize_preserves_inplace` — the same for `WFv`: stores whose input-value cells were updated in place
+  (`get_current_value_mut`) to refer to data anywhere, the retention count included; the retained cells of the
+  input-value chain are re-pointed, everything else in the prefix is unchanged.
+* `WF_reachable`, `C19_optimize_preserves_reachable`, `clone_preserves_reachable` — `WF` is an invariant of every
+  store the script operations reach (`Reachable`: new, the `add_*` operations, text, lists with their sorted key
+  table, symbol-list merges, symbol names, the stack pushes and pops, retention, `optimize`, `clone_data`), so the
+  preservation theorems hold on every reachable store without any per-state check.
+* `clone_preserves` — `clone_data` returns an address that unfolds to the same tree as its argument.
+* `cloneLimit_iff` — F-C19-3 stated precisely: `create_index_stack` succeeds iff the TREE unfolding of the argument
+  has at most `(data_block.size / 2)²` nodes.
+* `graphIso_sound`, `C19_certified` — the verified checker the driver runs on every generated case.
+* `example`s: concrete stores satisfying the hypotheses of every theorem (non-vacuity), the boundary case
+  `value = retention count`, the 9-cell reproducer of F-C19-3.
 -/
 import Garnish.Lemmas.OptimizeOps
+import Garnish.Lemmas.OptimizeWFv
+import Garnish.Lemmas.OptimizeLimit
+import Garnish.Lemmas.OptimizeResultWF2
 import Garnish.Spec.GraphIso
 namespace Garnish.Props.C19
 open Garnish Garnish.BasicOpt
@@ -228,21 +232,73 @@ theorem optimize_preserves_decode {F : Type} (numOf : Nat → Number F) {s s' : 
   obtain ⟨r', h1, h2⟩ := (C19_optimize_preserves hwf hroots h).roots k r hk
   exact ⟨r', h1, fun fuel => by simp [decode, h2 fuel]⟩
 
-/-- STILL OPEN (kept visible): stores in which retained `Value`/`ValueRoot` cells were updated in place
-(`get_current_value_mut`) to refer to data above the retention count.  The patched `optimize` re-points exactly
-those links (`repointLoop`); the model agrees with the Rust on this (stream `mut`, 0 disagreements) and every
-generated case is certified by `C19_certified`.  Missing for a universal proof: (1) `repointLoop` visits every
-retained cell of the value chain (needs `previous < index` along the chain and `remaining ≥` chain length),
-(2) the bisimulation case "retained `Value` cell whose link was rewritten" (kids `[previous ↦ previous, value ↦
-lookup value]`), (3) a well-formedness notion that lets value cells link forwards (`WFv`). -/
+/-! ### `optimize` on stores whose retained input-value cells were updated in place -/
+
+/-- `PreservedAll` when cells of the input-value chain inside the retained prefix may be re-pointed: they keep their
+kind and `previous`, and the value they refer to afterwards unfolds to the same tree as the one before -/
+structure PreservedAllV (pre post : Store) (roots m : List Nat) : Prop where
+  registers : ∀ fuel, decodeStack pre.cells fuel pre.currentRegister = decodeStack post.cells fuel post.currentRegister
+  values : ∀ fuel, decodeStack pre.cells fuel pre.currentValue = decodeStack post.cells fuel post.currentValue
+  frames : ∀ fuel, decodeStack pre.cells fuel pre.currentFrame = decodeStack post.cells fuel post.currentFrame
+  rootsLen : m.length = roots.length
+  roots : ∀ (k r : Nat), roots[k]? = some r → ∃ r', m[k]? = some r' ∧
+    ∀ fuel, unfold pre.cells fuel r = unfold post.cells fuel r'
+  symLen : post.symtab.size = pre.symtab.size
+  symbols : ∀ (j sym di : Nat), pre.symtab[j]? = some (.associativeItem sym di) →
+    ∃ di', post.symtab[j]? = some (.associativeItem sym di') ∧ ∀ fuel, unfold pre.cells fuel di = unfold post.cells fuel di'
+  retention : post.retention = pre.retention
+  retained : ∀ i, i < pre.retention → ¬ OnHead pre.cells pre.currentValue i → post.cells[i]? = pre.cells[i]?
+  repointed : ∀ i, i < pre.retention → OnHead pre.cells pre.currentValue i →
+    (∃ p v v', pre.cells[i]? = some (.value p v) ∧ post.cells[i]? = some (.value p v') ∧
+      ∀ fuel, unfold pre.cells fuel v = unfold post.cells fuel v') ∨
+    (∃ v v', pre.cells[i]? = some (.valueRoot v) ∧ post.cells[i]? = some (.valueRoot v') ∧
+      ∀ fuel, unfold pre.cells fuel v = unfold post.cells fuel v')
+
+/-- **C19_optimize_preserves_inplace** — universal: `WFv` (decidable) lets the `value` link of every input-value cell
+point to data ANYWHERE in the block — below, at, or above the retention count — which is what a store looks like after
+`get_current_value_mut` was used (`update_value`, reapply, the top-level `end_expression`) once a retention count was
+taken.  A successful `optimize` preserves everything C19 lists; the retained cells of the input-value chain are
+re-pointed (`value ≥ retention count`, the boundary included: `repointStep`), all other retained cells are unchanged. -/
+theorem C19_optimize_preserves_inplace {s s' : Store} {roots m : List Nat} (hwf : WFv s)
+    (hroots : rootsOKv s roots = true) (h : Store.optimize s roots = .ok (s', m)) : PreservedAllV s s' roots m := by
+  obtain ⟨hr, hbody⟩ := optimize_ok h
+  obtain ⟨L, hL⟩ := optimizeBody_links_v hbody hr hwf.optHypV (hwf.headsV hroots)
+  have hrootsD : ∀ r ∈ roots, isNode s.cells r = true := by
+    intro r hrm
+    simp only [rootsOKv, List.all_eq_true] at hroots
+    exact (isData_iff.mp (hroots r hrm)).1
+  have hhy := hwf.optHypV
+  refine ⟨?_, ?_, ?_, hL.rootsLen, ?_, hL.symLen, ?_, hL.retention, hL.retained, ?_⟩
+  · exact headRel_stack hL.unfolds (fun i hi => hwf.dec (by
+      have := hwf.reg; rw [hi] at this; exact (isData_iff.mp this).1)) hL.register
+  · exact headRel_stack hL.unfolds (fun i hi => hwf.dec (by
+      have := hwf.val; rw [hi] at this; exact sv_isNode this)) hL.value
+  · exact headRel_stack hL.unfolds (fun i hi => hwf.dec (by
+      have := hwf.frm; rw [hi] at this; exact (isData_iff.mp this).1)) hL.frame
+  · intro k r hk
+    obtain ⟨r', h1, h2⟩ := hL.roots k r hk
+    exact ⟨r', h1, hL.unfolds r r' h2 (hwf.dec (hrootsD r (List.mem_of_getElem? hk)))⟩
+  · intro j sym di hj
+    obtain ⟨di', h1, h2⟩ := hL.syms j sym di hj
+    refine ⟨di', h1, hL.unfolds di di' h2 (hwf.dec ?_)⟩
+    have := hwf.syms _ (List.mem_of_getElem? (by rw [Array.getElem?_toList]; exact hj))
+    exact (isData_iff.mp (by simpa [symOKv] using this)).1
+  · intro i hi hon
+    rcases hL.repointed i hi hon with ⟨p, v, v', h1, h2, h3⟩ | ⟨v, v', h1, h2, h3⟩
+    · have hsh : shape s.cells i = some ⟨.value 0 0, [], [p, v]⟩ := shape_of_solo h1 rfl
+      have hv := (isData_iff.mp ((hwf.kids hsh).2.1 p v h1).2.2).1
+      exact Or.inl ⟨p, v, v', h1, h2, hL.unfolds v v' h3 (hwf.dec hv)⟩
+    · have hsh : shape s.cells i = some ⟨.valueRoot 0, [], [v]⟩ := shape_of_solo h1 rfl
+      have hv := (isData_iff.mp ((hwf.kids hsh).2.2 v h1)).1
+      exact Or.inr ⟨v, v', h1, h2, hL.unfolds v v' h3 (hwf.dec hv)⟩
+
+/-- the statement that was open, now a theorem -/
 def C19_optimize_preserves_inplace_statement : Prop :=
-  ∀ (s s' : Store) (roots m : List Nat),
-    -- `WF` except that `nodeOK` lets a `Value`/`ValueRoot` cell refer to any node
-    (∃ s₀, WF s₀ ∧ s₀.cells.size = s.cells.size ∧ s₀.retention = s.retention ∧
-      (∀ i : Nat, s.cells[i]? = s₀.cells[i]? ∨ (∃ p v v', s₀.cells[i]? = some (Cell.value p v) ∧ s.cells[i]? = some (Cell.value p v') ∧ isNode s.cells v' = true) ∨
-        (∃ v v', s₀.cells[i]? = some (Cell.valueRoot v) ∧ s.cells[i]? = some (Cell.valueRoot v') ∧ isNode s.cells v' = true))) →
-    rootsOK s roots = true → Store.optimize s roots = .ok (s', m) →
-    ∀ fuel, decodeStack s.cells fuel s.currentValue = decodeStack s'.cells fuel s'.currentValue
+  ∀ (s s' : Store) (roots m : List Nat), WFv s → rootsOKv s roots = true →
+    Store.optimize s roots = .ok (s', m) → PreservedAllV s s' roots m
+
+theorem C19_optimize_preserves_inplace_statement_holds : C19_optimize_preserves_inplace_statement :=
+  fun _ _ _ _ hwf hr h => C19_optimize_preserves_inplace hwf hr h
 
 /-- proved part of `C19_optimize_preserves_statement` -/
 theorem C19_optimize_preserves_partial {s s' : Store} {roots m : List Nat}
@@ -331,6 +387,134 @@ theorem WF_pop_value {s : Store} (hwf : WF s) :
 
 theorem WF_retain_all {s : Store} (hwf : WF s) : WF s.retainAll := retainAll_wf hwf
 
+/-! ### `WF` is an invariant of every store the script operations can reach -/
+
+theorem WF_pop_frame {s s' : Store} {r : Option Nat} (hwf : WF s) (h : Store.popFrame s = .ok (s', r)) : WF s' :=
+  popFrame_wf hwf h
+
+theorem WF_add_symbol {s s' : Store} {sym : Nat} {name : List Nat} {a : Nat} (hwf : WF s)
+    (h : Store.parseAddSymbol s sym name = .ok (s', a)) : WF s' ∧ isNode s'.cells a = true := parseAddSymbol_wf hwf h
+
+theorem WF_merge_symbol_list {s s' : Store} {first second i : Nat} (hwf : WF s)
+    (hn1 : isNode s.cells first = true) (hn2 : isNode s.cells second = true)
+    (h : Store.mergeToSymbolList s first second = .ok (s', i)) : WF s' ∧ isNode s'.cells i = true :=
+  mergeToSymbolList_wf hwf hn1 hn2 h
+
+/-- `start_list`, `add_to_list` for every item, `end_list` (sorted key table) -/
+theorem WF_build_list {s s' : Store} {items : List Nat} {li : Nat} (hwf : WF s)
+    (hitems : ∀ a ∈ items, isNode s.cells a = true) (h : Store.buildList s items = .ok (s', li)) :
+    WF s' ∧ li = s.cells.size ∧ isNode s'.cells li = true := buildList_wf hwf hitems h
+
+theorem WF_clone_data {s s' : Store} {a r : Nat} (hwf : WF s) (ha : isNode s.cells a = true)
+    (h : Store.cloneData s a = .ok (s', r)) : WF s' ∧ isNode s'.cells r = true := cloneData_wf hwf ha h
+
+theorem WF_optimize {s s' : Store} {roots m : List Nat} (hwf : WF s) (hroots : rootsOK s roots = true)
+    (h : Store.optimize s roots = .ok (s', m)) : WF s' ∧ rootsOK s' m = true := optimize_wf hwf hroots h
+
+theorem WF_set_retention {s : Store} {n : Nat} (hwf : WF s) (hn : n ≤ s.cells.size)
+    (hext : ∀ i, i < n → extentOK s.cells n i = true) : WF (s.setRetention n) :=
+  ⟨hn, hwf.nodes, hwf.lists, hwf.headers, hext, hwf.reg, hwf.val, hwf.frm, hwf.syms⟩
+
+/-- the stores the OPT / CLONE script operations can reach from `BasicGarnishData::new`, with the arguments the
+scripts hand them: readable addresses (results of earlier operations), retention counts that do not cut through a
+value (`retain_all_current_data`, or a size observed at an operation boundary).  Not included: in-place updates of
+the input value (`get_current_value_mut`) — those stores are covered by `C19_optimize_preserves_inplace`. -/
+inductive Reachable : Store → Prop where
+  | init : Reachable Store.fresh
+  | addSolo {s s' : Store} {c : Cell} {i : Nat} {sh : Shape} : Reachable s → soloShape c = some sh →
+      (∀ k ∈ sh.kids, k < s.cells.size ∧ isNode s.cells k = true) → s.push c = .ok (s', i) → Reachable s'
+  | addText {s s' : Store} {hdr : Cell} {items : List Cell} {a : Nat} : Reachable s →
+      ((hdr = .charList items.length ∧ ∀ c ∈ items, isChar c = true) ∨
+       (hdr = .byteList items.length ∧ ∀ c ∈ items, isByte c = true)) →
+      Store.addInline s hdr items = .ok (s', a) → Reachable s'
+  | buildList {s s' : Store} {items : List Nat} {li : Nat} : Reachable s → (∀ a ∈ items, isNode s.cells a = true) →
+      Store.buildList s items = .ok (s', li) → Reachable s'
+  | mergeSymbolList {s s' : Store} {first second i : Nat} : Reachable s → isNode s.cells first = true →
+      isNode s.cells second = true → Store.mergeToSymbolList s first second = .ok (s', i) → Reachable s'
+  | addSymbol {s s' : Store} {sym : Nat} {name : List Nat} {a : Nat} : Reachable s →
+      Store.parseAddSymbol s sym name = .ok (s', a) → Reachable s'
+  | pushRegister {s s' : Store} {v : Nat} : Reachable s → isNode s.cells v = true →
+      Store.pushRegister s v = .ok s' → Reachable s'
+  | pushValue {s s' : Store} {v : Nat} : Reachable s → isNode s.cells v = true →
+      Store.pushValue s v = .ok s' → Reachable s'
+  | pushFrame {s s' : Store} {ret : Nat} : Reachable s → Store.pushFrame s ret = .ok s' → Reachable s'
+  | popRegister {s s' : Store} {r : Option Nat} : Reachable s → Store.popRegister s = .ok (s', r) → Reachable s'
+  | popValue {s : Store} : Reachable s → Reachable (Store.popValue s).1
+  | popFrame {s s' : Store} {r : Option Nat} : Reachable s → Store.popFrame s = .ok (s', r) → Reachable s'
+  | retainAll {s : Store} : Reachable s → Reachable s.retainAll
+  | setRetention {s : Store} {n : Nat} : Reachable s → n ≤ s.cells.size →
+      (∀ i, i < n → extentOK s.cells n i = true) → Reachable (s.setRetention n)
+  | optimize {s s' : Store} {roots m : List Nat} : Reachable s → rootsOK s roots = true →
+      Store.optimize s roots = .ok (s', m) → Reachable s'
+  | cloneData {s s' : Store} {a r : Nat} : Reachable s → isNode s.cells a = true →
+      Store.cloneData s a = .ok (s', r) → Reachable s'
+
+/-- **WF_reachable**: every reachable store is well formed -/
+theorem WF_reachable {s : Store} (h : Reachable s) : WF s := by
+  induction h with
+  | init => exact WF_fresh
+  | addSolo _ hso hk hp ih => exact (push_solo_wf ih hso hk hp).1
+  | addText _ hkind h ih => exact (addInline_wf ih hkind h).1
+  | buildList _ hitems h ih => exact (buildList_wf ih hitems h).1
+  | mergeSymbolList _ h1 h2 h ih => exact (mergeToSymbolList_wf ih h1 h2 h).1
+  | addSymbol _ h ih => exact (parseAddSymbol_wf ih h).1
+  | pushRegister _ hv h ih => exact pushRegister_wf ih hv h
+  | pushValue _ hv h ih => exact pushValue_wf ih hv h
+  | pushFrame _ h ih => exact pushFrame_wf ih h
+  | popRegister _ h ih => exact (popRegister_wf ih h).1
+  | popValue _ ih => exact (popValue_wf ih).1
+  | popFrame _ h ih => exact popFrame_wf ih h
+  | retainAll _ ih => exact retainAll_wf ih
+  | setRetention _ hn hext ih => exact WF_set_retention ih hn hext
+  | optimize _ hr h ih => exact (optimize_wf ih hr h).1
+  | cloneData _ ha h ih => exact (cloneData_wf ih ha h).1
+
+/-- **C19 for every reachable store**: no per-state check needed — on any store the script operations can build,
+also after earlier compactions and clones, a successful `optimize` with readable roots preserves everything C19
+lists, and the result is reachable (hence well formed) again -/
+theorem C19_optimize_preserves_reachable {s s' : Store} {roots m : List Nat} (hs : Reachable s)
+    (hroots : rootsOK s roots = true) (h : Store.optimize s roots = .ok (s', m)) :
+    PreservedAll s s' roots m ∧ Reachable s' ∧ rootsOK s' m = true :=
+  ⟨C19_optimize_preserves (WF_reachable hs) hroots h, .optimize hs hroots h,
+    (optimize_wf (WF_reachable hs) hroots h).2⟩
+
+/-- `clone_data` on every reachable store -/
+theorem clone_preserves_reachable {s s' : Store} {a r : Nat} (hs : Reachable s) (ha : isNode s.cells a = true)
+    (h : Store.cloneData s a = .ok (s', r)) :
+    (∀ fuel, unfold s.cells fuel a = unfold s'.cells fuel r) ∧ Reachable s' ∧ isNode s'.cells r = true :=
+  ⟨clone_preserves h (WF_reachable hs).optHyp.listsWF ((WF_reachable hs).dec ha), .cloneData hs ha h,
+    (cloneData_wf (WF_reachable hs) ha h).2⟩
+
+/-! ### the clone limit (known finding F-C19-3), stated precisely -/
+
+/-- **cloneLimit_iff**: `create_index_stack` lists a value once per path to it; for an argument whose TREE unfolding
+(along the links the index loop follows) has `T` nodes it succeeds iff `T ≤ (data_block.size / 2)²`, and otherwise
+fails with `CloneLimitReached` — acyclic graphs with sharing included (their tree size is exponential in the depth
+of sharing).  `Fits`: cursor within the allocated size, positive growth step. -/
+theorem cloneLimit_iff {s : Store} {a T : Nat} (hf : Fits s) (hT : TreeCount s.cells a T) :
+    (∃ s' st, Store.createIndexStack s a = .ok (s', st)) ↔ T ≤ cloneLimit s :=
+  createIndexStack_ok_iff hf hT
+
+theorem cloneLimit_exceeded {s : Store} {a T : Nat} (hf : Fits s) (hT : TreeCount s.cells a T)
+    (h : cloneLimit s < T) : Store.createIndexStack s a = .err .data ∧ Store.cloneData s a = .err .data :=
+  ⟨(createIndexStack_limit hf hT).2 h, cloneData_limit hf hT h⟩
+
+/-- the shortest reproducer of F-C19-3: `add (i 1); add (p @0 @0); add (p @1 @1); add (p @2 @2); add (l @3 @3)`:
+9 cells in a block of 10, an acyclic graph; its tree unfolding has 31 nodes, the limit is 25 -/
+def exDag : Store :=
+  { Store.fresh with
+    cells := #[.number 1, .pair 0 0, .pair 1 1, .pair 2 2, .list 2 0, .listItem 3, .listItem 3, .empty, .empty] }
+
+example : Fits exDag := by decide
+example : treeCount exDag.cells 10 4 = some 31 := by decide +kernel
+example : cloneLimit exDag = 25 := by decide
+example : WF exDag := by decide +kernel
+example : Store.createIndexStack exDag 4 = .err .data ∧ Store.cloneData exDag 4 = .err .data :=
+  cloneLimit_exceeded (by decide) (treeCount_sound 10 4 31 (by decide +kernel)) (by decide)
+/-- one level less of sharing fits: 15 ≤ 25 -/
+example : ∃ s' st, Store.createIndexStack exDag 3 = .ok (s', st) :=
+  (cloneLimit_iff (by decide) (treeCount_sound 10 3 15 (by decide +kernel))).mpr (by decide)
+
 /-! ### non-vacuity: a concrete store satisfying the hypotheses of every theorem above -/
 
 /-- 19 data cells: text, a pair, a keyed list with a key table, a shared value, registers (one saved by a frame),
@@ -385,5 +569,28 @@ example : (match Store.optimize exStore exRoots with
         | some ps => graphIso exStore.cells s'.cells ps
         | none => false)
     | _ => false) = true := by decide +kernel
+
+/-- non-vacuity of `C19_optimize_preserves_inplace`, at the boundary: the retained `ValueRoot` at 1 was updated in
+place to the value at address 2 = the retention count; an extra root is cloned first, so that value moves to 3 and the
+retained cell has to be re-pointed (with `value > retention count` instead of `≥` it would keep naming address 2) -/
+def exInPlace : Store :=
+  { Store.fresh with
+    cells := #[.unit, .valueRoot 2, .number 7, .number 9]
+    currentValue := some 1
+    retention := 2 }
+
+example : WFv exInPlace := by decide +kernel
+example : rootsOKv exInPlace [3] = true := by decide +kernel
+example : (match Store.optimize exInPlace [3] with
+    | .ok (s', m) => decide ((s'.cells.toList, s'.currentValue, m) =
+        ([.unit, .valueRoot 3, .number 9, .number 7], some 1, [2]))
+    | _ => false) = true := by decide +kernel
+example : ∀ s' m, Store.optimize exInPlace [3] = .ok (s', m) → PreservedAllV exInPlace s' [3] m :=
+  fun _ _ h => C19_optimize_preserves_inplace (by decide +kernel) (by decide +kernel) h
+
+/-- `Reachable` is inhabited beyond the initial store: one `add_number`, then `retain_all_current_data` -/
+example : ∃ s' i, Store.fresh.push (.number 5) = .ok (s', i) ∧ Reachable s'.retainAll := by
+  obtain ⟨s', h, _⟩ := push_total (s := Store.fresh) (.number 5) (by decide)
+  exact ⟨s', _, h, .retainAll (.addSolo .init (sh := ⟨.number 5, [], []⟩) rfl (by intro k hk; simp at hk) h)⟩
 
 end Garnish.Props.C19
